@@ -4,6 +4,14 @@ import json, os
 V = os.path.dirname(os.path.dirname(os.path.abspath(__file__)))
 
 CHECKS = {
+ "C08": ("exploration", "5/C08",
+         "Seeded executions with -n into a directory pre-populated with entries of every kind at the mapped paths of a random subset of 3-12 sources, under supervisor schedules that race the walker's existence check with active workers; oracle: every pre-existing entry keeps kind, inode, bytes, mode, mtime, ctime, link text, device number; a colliding file/link/node source implies non-zero exit; trace monitor: no mutating call on a pre-existing inode or path; nothing is created through a pre-existing link.",
+         "Directory-onto-directory collisions are not demanded either way; directory mtimes may change when new children are created.",
+         "runtime monitoring: before/after snapshot of pre-existing entries + trace monitor under schedule perturbation"),
+ "C09": ("fault_enumeration", "5/C09",
+         "Multi-step histories replayed against the real binary with a byte-level model of <name>.~N~ bookkeeping (every old version must survive under a new, larger number; auto exactly when such a backup exists; no sibling entry changes), over name classes incl. non-UTF-8 and look-alikes and pre-seeded backup sets; plus SIGKILL before/after every mutating system call of the overwrite step (old content must remain under the original or a backup name).",
+         "Copying a name and its own backup look-alike in one invocation is not generated (the statement cannot arbitrate it). Kill points are system-call boundaries.",
+         "runtime monitoring: history replay with reference model + kill-point enumeration"),
  "C05": ("fault_enumeration", "5/C05",
          "Real executions under the ptrace supervisor with one I/O policy each: lengths of copy_file_range/read/write/pread64/pwrite64 reduced at entry so the kernel performs genuinely short transfers (1 byte, len-1, half, random, caps; every call or only the k-th), copy_file_range refused (ENOSYS/EXDEV/EPERM, from call 1 or k), FICLONE and FIEMAP answered unsupported, read EINTR; plus the portable libfs back end through a libfs-only probe. Oracle: exit 0 implies byte-exact destination.",
          "Short returns are sampled (extremes and random interior points), not enumerated at every call; the portable back end is reachable only at the libfs API (cargo feature unification).",
